@@ -11,17 +11,27 @@
 //	go     go f(a...) -> verifrt.Go(site, func(){ f(a...) }) with arguments bound at the go statement
 //	points verifrt.Point(site) before (and after) channel sends/receives, close(), and select statements
 //	now    time.Now() -> verifrt.Now() (strictly increasing readings under virtual time)
+//	net    net.DialTimeout / net.Listen -> verifrt.NetDialTimeout / NetListen (in-memory network seam)
+//	atomics x.Add(v) -> verifrt.AtomicAdd(&x, v) (address taken, scheduling point, add)
+//	maprange  for k, v := range m (m of map type, decided with go/types over the package) iterates in sorted key order:
+//	        for _, e := range verifrt.SortedEntries(m) { k, v := e.K, e.V; ... } - Go's random map order is the one
+//	        source of nondeterminism the scheduler cannot own otherwise
 package main
 
 import (
 	"bytes"
+	"encoding/json"
 	"flag"
 	"fmt"
 	"go/ast"
+	"go/importer"
 	"go/parser"
 	"go/printer"
 	"go/token"
+	"go/types"
+	"io"
 	"os"
+	"os/exec"
 	"path/filepath"
 	"strconv"
 	"strings"
@@ -36,6 +46,121 @@ type rewriter struct {
 	used  bool
 	sites int
 	tmpN  int
+	info  *types.Info // set when the package was type-checked (rule maprange)
+}
+
+// typedPackage: the non-test files of one package directory parsed into one FileSet and type-checked against the
+// export data of its dependencies (go list -export), so that expression types are known to the rewriter.
+type typedPackage struct {
+	fset  *token.FileSet
+	files map[string]*ast.File // by absolute path
+	info  *types.Info
+}
+
+func loadTyped(repo, dir string) (*typedPackage, error) {
+	cmd := exec.Command("go", "list", "-export", "-deps", "-json=ImportPath,Dir,GoFiles,Export", "./"+dir)
+	cmd.Dir = repo
+	cmd.Stderr = os.Stderr
+	out, err := cmd.Output()
+	if err != nil {
+		return nil, fmt.Errorf("go list: %w", err)
+	}
+	type pkg struct {
+		ImportPath, Dir, Export string
+		GoFiles                 []string
+	}
+	exports := map[string]string{}
+	var target *pkg
+	dec := json.NewDecoder(bytes.NewReader(out))
+	absDir, _ := filepath.Abs(filepath.Join(repo, dir))
+	for dec.More() {
+		var p pkg
+		if err := dec.Decode(&p); err != nil {
+			return nil, err
+		}
+		if p.Export != "" {
+			exports[p.ImportPath] = p.Export
+		}
+		if d, _ := filepath.Abs(p.Dir); d == absDir {
+			q := p
+			target = &q
+		}
+	}
+	if target == nil {
+		return nil, fmt.Errorf("package %s not listed", dir)
+	}
+	tp := &typedPackage{fset: token.NewFileSet(), files: map[string]*ast.File{}}
+	var files []*ast.File
+	for _, name := range target.GoFiles {
+		path := filepath.Join(target.Dir, name)
+		f, err := parser.ParseFile(tp.fset, path, nil, parser.ParseComments)
+		if err != nil {
+			return nil, err
+		}
+		tp.files[path] = f
+		files = append(files, f)
+	}
+	lookup := func(path string) (io.ReadCloser, error) {
+		e, ok := exports[path]
+		if !ok {
+			return nil, fmt.Errorf("no export data for %s", path)
+		}
+		return os.Open(e)
+	}
+	tp.info = &types.Info{Types: map[ast.Expr]types.TypeAndValue{}}
+	var firstErr error
+	conf := types.Config{Importer: importer.ForCompiler(tp.fset, "gc", lookup), Error: func(err error) {
+		if firstErr == nil {
+			firstErr = err
+		}
+	}}
+	_, _ = conf.Check(target.ImportPath, tp.fset, files, tp.info)
+	if firstErr != nil {
+		return nil, fmt.Errorf("type check: %w", firstErr)
+	}
+	return tp, nil
+}
+
+// rewriteMapRange turns a range over a map into a range over its entries in sorted key order.
+func (r *rewriter) rewriteMapRange(rs *ast.RangeStmt) {
+	if r.info == nil {
+		return
+	}
+	tv, ok := r.info.Types[rs.X]
+	if !ok || tv.Type == nil {
+		return
+	}
+	if _, isMap := tv.Type.Underlying().(*types.Map); !isMap {
+		return
+	}
+	r.tmpN++
+	ev := ast.NewIdent(fmt.Sprintf("vfMapEntry%d", r.tmpN))
+	var lhs, rhs []ast.Expr
+	blank := func(e ast.Expr) bool {
+		id, ok := e.(*ast.Ident)
+		return e == nil || (ok && id.Name == "_")
+	}
+	if !blank(rs.Key) {
+		lhs = append(lhs, rs.Key)
+		rhs = append(rhs, &ast.SelectorExpr{X: ast.NewIdent(ev.Name), Sel: ast.NewIdent("K")})
+	}
+	if !blank(rs.Value) {
+		lhs = append(lhs, rs.Value)
+		rhs = append(rhs, &ast.SelectorExpr{X: ast.NewIdent(ev.Name), Sel: ast.NewIdent("V")})
+	}
+	tok := rs.Tok
+	rs.X = &ast.CallExpr{Fun: rt("SortedEntries"), Args: []ast.Expr{rs.X}}
+	if len(lhs) > 0 {
+		if tok != token.DEFINE && tok != token.ASSIGN {
+			tok = token.DEFINE
+		}
+		rs.Body.List = append([]ast.Stmt{&ast.AssignStmt{Lhs: lhs, Tok: tok, Rhs: rhs}}, rs.Body.List...)
+		rs.Key, rs.Value, rs.Tok = ast.NewIdent("_"), ev, token.DEFINE
+	} else {
+		rs.Key, rs.Value, rs.Tok = nil, nil, token.ILLEGAL
+	}
+	r.used = true
+	r.sites++
 }
 
 func (r *rewriter) site(n ast.Node) *ast.BasicLit {
@@ -206,6 +331,10 @@ func (r *rewriter) rewriteGo(g *ast.GoStmt) []ast.Stmt {
 func (r *rewriter) walk(n ast.Node) {
 	ast.Inspect(n, func(n ast.Node) bool {
 		switch x := n.(type) {
+		case *ast.RangeStmt:
+			if r.rules["maprange"] {
+				r.rewriteMapRange(x)
+			}
 		case *ast.CallExpr:
 			r.rewriteCall(x)
 		case *ast.BlockStmt:
@@ -247,15 +376,40 @@ func main() {
 	for _, x := range strings.Split(*rules, ",") {
 		rs[strings.TrimSpace(x)] = true
 	}
+	typed := map[string]*typedPackage{}
 	for _, rel := range flag.Args() {
 		src := filepath.Join(*repo, rel)
 		fset := token.NewFileSet()
-		f, err := parser.ParseFile(fset, src, nil, parser.ParseComments)
-		if err != nil {
-			fmt.Fprintf(os.Stderr, "vinstr: %v\n", err)
-			os.Exit(2)
+		var f *ast.File
+		var info *types.Info
+		if rs["maprange"] {
+			dir := filepath.Dir(rel)
+			tp, ok := typed[dir]
+			if !ok {
+				var err error
+				if tp, err = loadTyped(*repo, dir); err != nil {
+					// the rule is an aid to determinism only: without types the file is rewritten by the other rules
+					fmt.Fprintf(os.Stderr, "vinstr: maprange disabled for %s: %v\n", dir, err)
+					tp = nil
+				}
+				typed[dir] = tp
+			}
+			if tp != nil {
+				abs, _ := filepath.Abs(src)
+				if tf, ok := tp.files[abs]; ok {
+					f, fset, info = tf, tp.fset, tp.info
+				}
+			}
 		}
-		r := &rewriter{fset: fset, rules: rs, file: rel}
+		if f == nil {
+			var err error
+			f, err = parser.ParseFile(fset, src, nil, parser.ParseComments)
+			if err != nil {
+				fmt.Fprintf(os.Stderr, "vinstr: %v\n", err)
+				os.Exit(2)
+			}
+		}
+		r := &rewriter{fset: fset, rules: rs, file: rel, info: info}
 		r.walk(f)
 		if !r.used {
 			continue
